@@ -79,8 +79,8 @@ int main(int argc, char** argv) {
       if (has(e, "AFTER-DESTROY")) return "USE-AFTER-DESTROY: " + e;
       if (has(e, " k.cw ") && cgone) return "USE-AFTER-DESTROY: " + e;
       if ((has(e, " k.wc ") || has(e, " k.ws ")) && wgone) return "USE-AFTER-DESTROY: " + e;
-      if (has(e, " k.ws C.acq_rel 0->1 ok")) held = true;
-      if (has(e, " k.ws S.rel 3")) held = false;
+      if (has(e, " k.ws C.") && has(e, " 0->1 ok")) held = true;
+      if (has(e, " k.ws S.") && has(e, " 3")) held = false;
     }
     if (!cgone) return "DEADLOCK: canary destructor did not return";
     if (watched && !wgone) return "DEADLOCK: watcher destructor did not return";
